@@ -15,12 +15,12 @@ package server
 // oracle does not depend on the server's own bookkeeping.
 
 import (
-	"os"
+	"context"
+	"fmt"
 	"io"
 	"log/slog"
 	"net/netip"
-	"context"
-	"fmt"
+	"os"
 	"sort"
 	"testing"
 	"time"
@@ -43,11 +43,12 @@ const (
 	hDown // close the session and leave it down
 	hUp   // re-establish a session that is down
 	hDeletePeer
-	hBurst // several announcements written back to back before settling
-	hRace   // two peers announce / withdraw the same prefix at the same time
-	hRaceUp // a session completes its handshake while another peer's update is in flight
+	hBurst       // several announcements written back to back before settling
+	hRace        // two peers announce / withdraw the same prefix at the same time
+	hRaceUp      // a session completes its handshake while another peer's update is in flight
 	hRaceRefresh // a peer asks for a ROUTE-REFRESH while another peer's update is in flight
 	hTwin        // another peer announces the route this peer has, attribute for attribute (two relays of one route)
+	hFlood       // several hundred host routes sharing one attribute set (the UPDATEs relaying them are filled to the size limit)
 )
 
 type h01Op struct {
@@ -99,6 +100,7 @@ func drawH01(t *rapid.T) h01Case {
 		}
 		c.Peers = append(c.Peers, p)
 	}
+	flood := rapid.IntRange(0, 5).Draw(t, "flood") == 0
 	n := rapid.IntRange(3, 40).Draw(t, "nops")
 	kinds := []int{hAnnounce, hAnnounce, hAnnounce, hAnnounce, hAnnounce, hWithdraw, hWithdraw, hFlap, hApiAdd, hApiDel, hDown, hUp, hBurst, hDeletePeer, hRace, hRaceUp, hRaceRefresh, hTwin, hTwin}
 	maxPrefix := 5
@@ -107,8 +109,17 @@ func drawH01(t *rapid.T) h01Case {
 		maxPrefix = 1
 		n = rapid.IntRange(8, 40).Draw(t, "nops_f")
 	}
+	floodAt := -1
+	if flood {
+		floodAt = rapid.IntRange(0, n-1).Draw(t, "flood_at")
+	}
 	for i := 0; i < n; i++ {
 		l := fmt.Sprintf("o%d", i)
+		if i == floodAt {
+			c.Ops = append(c.Ops, h01Op{Kind: hFlood, Peer: rapid.IntRange(0, np-1).Draw(t, l+"fpeer"), Prefix: rapid.IntRange(0, 1).Draw(t, l+"fprefix"),
+				PathID: 1, Variant: rapid.IntRange(0, 4).Draw(t, l+"fvariant"), N: rapid.IntRange(2, 5).Draw(t, l+"fn")})
+			continue
+		}
 		op := h01Op{
 			Kind:    rapid.SampledFrom(kinds).Draw(t, l+"kind"),
 			Peer:    rapid.IntRange(0, np-1).Draw(t, l+"peer"),
@@ -140,15 +151,16 @@ type h01Peer struct {
 }
 
 type h01Run struct {
-	c      *h01Case
-	n      *simNet
-	st     *verifkit.Stats
-	peers  []*h01Peer
-	local  map[rsViewKey]h01Route
-	serial uint32
-	log    []string
-	raced  bool
-	twins  bool
+	c       *h01Case
+	n       *simNet
+	st      *verifkit.Stats
+	peers   []*h01Peer
+	local   map[rsViewKey]h01Route
+	serial  uint32
+	log     []string
+	raced   bool
+	twins   bool
+	flooded bool
 	// for the non-trivial rule
 	bestChangedAfterTold bool
 	told                 map[rsViewKey]bool
@@ -311,6 +323,51 @@ func (r *h01Run) apply(op h01Op) *verifkit.Failure {
 		}
 		otherUpdate(qi)
 		r.raced = true
+	case hFlood:
+		if !p.up {
+			return nil
+		}
+		// 850..1450 /32 routes with one attribute set (one tag), written as UPDATEs of 300 routes; afterwards another
+		// peer starts a new session, so that the whole set is packed in one go (UPDATEs filled to the size limit)
+		cnt := 450 + 200*op.N
+		tag := r.nextTag(op.Peer)
+		a := h01Attrs(p.spec, false, op.Variant, tag)
+		id := uint32(0)
+		if p.spec.AddPathRecv {
+			id = uint32(op.PathID)
+		}
+		var nl []bgp.PathNLRI
+		flush := func() {
+			if len(nl) > 0 {
+				_ = p.sess.send(bgp.NewBGPUpdateMessage(nil, a.toBGP(nl[0].NLRI, false, id), nl), rsTxOpt(p.spec))
+				nl = nil
+			}
+		}
+		for i := 0; i < cnt; i++ {
+			pfx := netip.PrefixFrom(netip.AddrFrom4([4]byte{10, byte(200 + op.Prefix), byte(i >> 8), byte(i)}), 32)
+			x, _ := bgp.NewIPAddrPrefix(pfx)
+			nl = append(nl, bgp.PathNLRI{NLRI: x, ID: id})
+			p.adjin[rsViewKey{Prefix: pfx.String(), ID: id}] = h01Route{attrs: a, tag: tag}
+			if len(nl) == 300 {
+				flush()
+			}
+		}
+		flush()
+		n.settle()
+		// one other peer starts a new session: it is sent the whole table in one go
+		if qi := otherPeer(); qi >= 0 {
+			q := r.peers[qi]
+			q.sess.close()
+			q.up, q.adjin, q.downAt = false, map[rsViewKey]h01Route{}, n.now()
+			n.settle()
+			n.advance(6 * time.Second)
+			if f := r.establish(qi); f != nil {
+				return f
+			}
+			r.logf("peer %d session closed and re-established", qi)
+		}
+		r.flooded = true
+		r.logf("peer %d announces %d host routes 10.%d.0.0/32.. id=%d variant %d tag %#x", op.Peer, cnt, 200+op.Prefix, id, op.Variant, tag)
 	case hTwin:
 		qi := otherPeer()
 		if !p.up || qi < 0 || r.peers[qi].spec.internal() != p.spec.internal() {
@@ -653,6 +710,9 @@ func (r *h01Run) verify() *verifkit.Failure {
 				if rx[k].Type() == bgp.BGP_MSG_UPDATE {
 					if pm, err := bgp.ParseBGPMessage(rx[k].Raw, rsRxOpt(p.spec)); err == nil {
 						u := pm.Body.(*bgp.BGPUpdate)
+						if len(u.NLRI) > 8 {
+							fmt.Fprintf(os.Stderr, "   -> peer %d gets UPDATE of %d octets with %d routes\n", i, len(rx[k].Raw), len(u.NLRI))
+						}
 						r.logf("   -> peer %d gets UPDATE withdrawn=%v nlri=%v tag=%#x", i, u.WithdrawnRoutes, u.NLRI, h01Tag(u.PathAttributes))
 					}
 				}
@@ -815,6 +875,9 @@ func runH01(t *testing.T) func(c h01Case, st *verifkit.Stats) *verifkit.Failure 
 			}
 			if r.twins {
 				st.Label("twin-routes")
+			}
+			if r.flooded {
+				st.Label("flood-of-host-routes")
 			}
 			if c.Sched != 0 && simYieldAvailable {
 				st.Label("steered-schedule")
